@@ -123,7 +123,10 @@ Fixpoint scan (kws : list string) (d : nat) (s : string) : list string * string 
 (* descriptions                                                                                *)
 (* ------------------------------------------------------------------------------------------ *)
 Inductive dir := Preceding | Following.
-Inductive bound := BCurrentRow | BEdge (d : dir) (v : option Z).     (* analytics.CURRENT_ROW | Preceding(v) / Following(v) *)
+(* the value handed to Preceding(v)/Following(v): an int, or anything else (float, Decimal, str) of which only
+   str(value) - what "{value}".format writes - matters *)
+Inductive offset := OInt (n : Z) | ORaw (s : string).
+Inductive bound := BCurrentRow | BEdge (d : dir) (v : option offset). (* analytics.CURRENT_ROW | Preceding(v) / Following(v) *)
 Inductive fkind := Rows | Range.
 Inductive order := Asc | Desc.
 Definition frame : Type := fkind * bound * option bound.
@@ -131,12 +134,19 @@ Definition frame : Type := fkind * bound * option bound.
 Definition dir_eqb (a b : dir) : bool := match a, b with Preceding, Preceding | Following, Following => true | _, _ => false end.
 Definition order_eqb (a b : order) : bool := match a, b with Asc, Asc | Desc, Desc => true | _, _ => false end.
 Definition fkind_eqb (a b : fkind) : bool := match a, b with Rows, Rows | Range, Range => true | _, _ => false end.
+Definition offset_eqb (a b : offset) : bool :=
+  match a, b with OInt n, OInt m => Z.eqb n m | ORaw s, ORaw t => String.eqb s t | _, _ => false end.
 Definition bound_eqb (a b : bound) : bool :=
   match a, b with
   | BCurrentRow, BCurrentRow => true
-  | BEdge d v, BEdge d' v' => dir_eqb d d' && option_eqb Z.eqb v v'
+  | BEdge d v, BEdge d' v' => dir_eqb d d' && option_eqb offset_eqb v v'
   | _, _ => false
   end.
+
+(* a filter criterion: its text rendered alone (subcriterion=False) and whether it is a ComplexCriterion whose
+   operator is not AND (OR / XOR at the top): ComplexCriterion.needs_brackets then parenthesises it inside
+   the conjunction that Criterion.all builds *)
+Definition crit : Type := bool * string.
 
 Record func_desc := {
   fd_name : string;                              (* self.name *)
@@ -144,7 +154,7 @@ Record func_desc := {
   fd_alias : option string;                      (* self.alias *)
   fd_special : option string;                    (* what get_special_params_sql returns *)
   fd_distinct : bool;                            (* DistinctOptionFunction._distinct *)
-  fd_filters : list string;                      (* AggregateFunction._filters, rendered non-complex criteria *)
+  fd_filters : list crit;                        (* AggregateFunction._filters *)
   fd_include_filter : bool;
   fd_partition : list string;                    (* AnalyticFunction._partition *)
   fd_orderbys : list (string * option order);    (* AnalyticFunction._orderbys *)
@@ -166,8 +176,9 @@ Definition order_text (o : order) : string := match o with Asc => "ASC" | Desc =
 Definition fkind_text (k : fkind) : string := match k with Rows => "ROWS" | Range => "RANGE" end.
 
 (* Edge.__str__ : "{value} {modifier}" with value = "UNBOUNDED" if self.value is None else self.value *)
-Definition render_edge (e : dir * option Z) : string :=
-  (match snd e with None => "UNBOUNDED" | Some n => Z_to_string n end) ++ " " ++ dir_text (fst e).
+Definition offset_text (o : offset) : string := match o with OInt n => Z_to_string n | ORaw s => s end.
+Definition render_edge (e : dir * option offset) : string :=
+  (match snd e with None => "UNBOUNDED" | Some v => offset_text v end) ++ " " ++ dir_text (fst e).
 
 Definition render_bound (b : bound) : string :=
   match b with BCurrentRow => "CURRENT ROW" | BEdge d v => render_edge (d, v) end.
@@ -201,12 +212,21 @@ Definition base_function_sql (fd : func_desc) (args : list string) : string :=
   fd_name fd ++ "(" ++ join "," args ++
   (if truthy_ostr (fd_special fd) then " " ++ ostr (fd_special fd) else "") ++ ")".
 
+(* Criterion.all(filters).get_sql(): one criterion is rendered as it is; several are folded with "and" into
+   left-nested ComplexCriterions, which render flat, each member that needs brackets parenthesised *)
+Definition crit_in_and (c : crit) : string := if fst c then "(" ++ snd c ++ ")" else snd c.
+Definition filters_text (fs : list crit) : string :=
+  match fs with
+  | [c] => snd c
+  | _ => join " AND " (map crit_in_and fs)
+  end.
+
 (* AggregateFunction.get_filter_sql: "WHERE " + Criterion.all(filters).get_sql(kwargs);
    Criterion.all([]) is the EmptyCriterion whose get_sql takes no keyword arguments: TypeError *)
 Definition filter_sql (fd : func_desc) : res string :=
   match fd_filters fd with
   | [] => Err "TypeError"
-  | fs => Ok ("WHERE " ++ join " AND " fs)
+  | fs => Ok ("WHERE " ++ filters_text fs)
   end.
 
 (* AggregateFunction.get_function_sql *)
@@ -290,10 +310,20 @@ Record call_ast := {
 }.
 
 (* a frame bound: number or UNBOUNDED, then the modifier *)
-Definition parse_edge_tok (tok : string) : option (option Z) :=
+Definition is_int_text (s : string) : bool :=
+  match Z_of_string s with Some z => String.eqb (Z_to_string z) s | None => false end.
+Definition num_start_char (c : ascii) : bool :=
+  existsb (Ascii.eqb c) ["-"; "+"; "."; "0"; "1"; "2"; "3"; "4"; "5"; "6"; "7"; "8"; "9"]%char.
+(* a non-integer numeral as str() writes it: starts like a number, one word, no parentheses *)
+Definition raw_ok (s : string) : bool :=
+  negb (is_int_text s) && match s with String c _ => num_start_char c | EmptyString => false end
+  && nochar " " s && nochar "(" s && nochar ")" s.
+Definition parse_edge_tok (tok : string) : option (option offset) :=
   match Z_of_string tok with
-  | Some z => if String.eqb (Z_to_string z) tok then Some (Some z) else None
-  | None => if String.eqb tok "UNBOUNDED" then Some None else None
+  | Some z => if String.eqb (Z_to_string z) tok then Some (Some (OInt z))
+              else if raw_ok tok then Some (Some (ORaw tok)) else None
+  | None => if String.eqb tok "UNBOUNDED" then Some None
+            else if raw_ok tok then Some (Some (ORaw tok)) else None
   end.
 Definition parse_dir (s : string) : option (dir * string) :=
   match strip_prefix "PRECEDING" s with
@@ -315,7 +345,7 @@ Definition parse_bound (s : string) : option (bound * string) :=
   end.
 
 (* what an edge text denotes: (modifier, number) ; None = not an edge text *)
-Definition denote_edge (s : string) : option (dir * option Z) :=
+Definition denote_edge (s : string) : option (dir * option offset) :=
   match parse_bound s with
   | Some (BEdge d v, EmptyString) => Some (d, v)
   | _ => None
@@ -472,7 +502,14 @@ Definition ord_ok (o : string * option order) : bool :=
   let t := fst o in
   top 0 t && kwfree KW_ORD 0 t && nonempty t
   && negb (is_some (strip_suffix " ASC" t)) && negb (is_some (strip_suffix " DESC" t)).
-Definition filter_ok (f : string) : bool := top 0 f.
+Definition filter_ok (f : crit) : bool := top 0 (snd f).
+Definition offset_ok (v : option offset) : bool := match v with Some (ORaw s) => raw_ok s | _ => true end.
+Definition bound_ok (b : bound) : bool := match b with BCurrentRow => true | BEdge _ v => offset_ok v end.
+Definition frame_ok (f : option frame) : bool :=
+  match f with
+  | None => true
+  | Some (_, lo, hi) => bound_ok lo && match hi with Some b => bound_ok b | None => true end
+  end.
 
 (* the alias part must not look like a clause *)
 Definition tail_text (o : ropts) (fd : func_desc) : option string :=
@@ -489,7 +526,7 @@ Definition tail_ok (t : option string) : bool :=
 Definition texts_ok (fd : func_desc) : bool :=
   name_ok (fd_name fd) && schema_ok (fd_schema fd) && special_ok (fd_special fd)
   && forallb filter_ok (fd_filters fd) && forallb part_ok (fd_partition fd) && forallb ord_ok (fd_orderbys fd)
-  && negb (fd_bare fd).
+  && frame_ok (fd_frame fd) && negb (fd_bare fd).
 
 (* the states the clause methods can reach when every filter() call that passes criteria passes at least one
    non-empty criterion: a requested FILTER has at least one criterion, a frame comes with the OVER clause *)
@@ -504,7 +541,7 @@ Definition expected_ast (o : ropts) (fd : func_desc) (args : list string) : call
      a_distinct := fd_distinct fd;
      a_args := args;
      a_special := if truthy_ostr (fd_special fd) then fd_special fd else None;
-     a_filter := if fd_include_filter fd then Some (join " AND " (fd_filters fd)) else None;
+     a_filter := if fd_include_filter fd then Some (filters_text (fd_filters fd)) else None;
      a_over := if fd_include_over fd || is_some (fd_frame fd)
                then Some {| wa_partition := fd_partition fd; wa_order := fd_orderbys fd; wa_frame := fd_frame fd |}
                else None;
